@@ -548,7 +548,19 @@ pub fn gen_c20(prop: &str, tier: Tier, rng: &mut Rng, seed: u64, run: u64) -> Pl
         }
         plan.push("UD", &[0]);
     }
+    // partition / heal: in a third of the runs the wrapper's link is cut for a few rounds and restored
+    // (while cut the wrapper's terminal sees only what it holds itself - usually nothing)
+    let partition_p = if rng.chance(0.33) { 0.12 } else { 0.0 };
+    let mut cut = false;
     for _ in 0..rounds {
+        if partition_p > 0.0 && rng.chance(if cut { 0.4 } else { partition_p }) {
+            if cut {
+                plan.push("C", &[wterm as i64, ranges[1].0 as i64]);
+            } else {
+                plan.push("D", &[wterm as i64]);
+            }
+            cut = !cut;
+        }
         match rng.below(5) {
             0 => {}
             1 => {
